@@ -168,7 +168,7 @@ def sh(cmd, cwd=None, env=None, timeout=3600):
         return 124, "timeout"
 
 
-def worker(w, queue, lock, anchor_map, done_ids):
+def worker(w, queue, lock, anchor_map, done_ids, results_name="results.jsonl", skip_suite=False):
     S = "/tmp/hm-msweep-w%d" % w
     root = os.path.join(S, "repo")
     subprocess.run(["git", "-C", REPO, "worktree", "remove", "--force", root], stdout=subprocess.DEVNULL, stderr=subprocess.DEVNULL)
@@ -194,7 +194,7 @@ def worker(w, queue, lock, anchor_map, done_ids):
             if rc != 0:
                 res["outcome"] = "does_not_compile"
             else:
-                rc, o = sh(["cargo", "test", "--workspace", "--no-fail-fast", "--offline", "--target-dir", S + "/t"], cwd=root, timeout=1200)
+                rc, o = (0, "") if skip_suite else sh(["cargo", "test", "--workspace", "--no-fail-fast", "--offline", "--target-dir", S + "/t"], cwd=root, timeout=1200)
                 if rc != 0:
                     res["outcome"] = "killed_by_existing_suite"
                 else:
@@ -212,12 +212,13 @@ def worker(w, queue, lock, anchor_map, done_ids):
                             res["first_signature"] = sig[0] if sig else ""
                             break
                         if rc != 0:
+                            # no verdict from this check (build failure, degenerate generator, harness
+                            # panic): remember it and go on with the next anchored check
                             res["outcome"] = "infrastructure"
                             res["infra_tail"] = o[-600:]
-                            break
             res["seconds"] = round(time.time() - t0, 1)
             with lock:
-                with open(os.path.join(OUT, "results.jsonl"), "a") as f:
+                with open(os.path.join(OUT, results_name), "a") as f:
                     f.write(json.dumps(res) + "\n")
                 print("[w%d] %s %s:%d %s '%s'->'%s' => %s %s (%.0fs)" % (w, m["id"], m["file"], m["line"], m["op"], m["old"][:20], m["new"][:20], res["outcome"], res.get("killed_by", ""), res["seconds"]), flush=True)
     finally:
@@ -266,6 +267,23 @@ def main():
         for t in ts:
             t.join()
         print("SWEEP DONE")
+    elif cmd == "run-suite-killed":
+        # second pass: the mutants the repository's own suite already kills, run against the checks
+        # anyway (are the checks strong on their own, or do they lean on the suite?)
+        workers = int(sys.argv[2]) if len(sys.argv) > 2 else 4
+        first = [json.loads(l) for l in open(os.path.join(OUT, "results.jsonl"))]
+        ids = {r["id"] for r in first if r["outcome"] == "killed_by_existing_suite"}
+        rp = os.path.join(OUT, "results_suite_killed.jsonl")
+        done = set(json.loads(l)["id"] for l in open(rp)) if os.path.exists(rp) else set()
+        queue = [m for m in ms if m["id"] in ids and m["id"] not in done]
+        lock = threading.Lock()
+        am = anchors()
+        ts = [threading.Thread(target=worker, args=(w, queue, lock, am, done, "results_suite_killed.jsonl", True)) for w in range(workers)]
+        for t in ts:
+            t.start()
+        for t in ts:
+            t.join()
+        print("SWEEP DONE")
     elif cmd == "report":
         report(ms)
 
@@ -307,6 +325,22 @@ def report(ms):
         L.append("\n## Infrastructure outcomes (exit 2: watchdog / build) - not verdicts\n")
         for r in by["infrastructure"]:
             L.append("* %s %s:%d %s `%s` -> `%s`: %s" % (r["id"], r["file"], r["line"], r["op"], r["old"][:30], r["new"][:30], notes.get(r["id"]) or (r.get("infra_tail") or "")[-160:].replace("\n", " ")))
+    sp = os.path.join(OUT, "results_suite_killed.jsonl")
+    if os.path.exists(sp):
+        r2 = [json.loads(l) for l in open(sp)]
+        c = {}
+        for r in r2:
+            c[r["outcome"]] = c.get(r["outcome"], 0) + 1
+        L.append("\n## Second pass: the mutants the existing suite kills, run against the checks alone\n")
+        L.append("(`run-suite-killed`: same procedure without the repository's suite.) %d mutants: %s.\n" % (len(r2), ", ".join("%s %d" % (k, v) for k, v in sorted(c.items()))))
+        kb = {}
+        for r in r2:
+            if r["outcome"] == "killed_by_check":
+                kb[r["killed_by"]] = kb.get(r["killed_by"], 0) + 1
+        L.append("First killing check: " + ", ".join("%s: %d" % (k, v) for k, v in sorted(kb.items())) + "\n")
+        for r in r2:
+            if r["outcome"] != "killed_by_check":
+                L.append("* %s %s %s:%d %s `%s` -> `%s` (`%s`): %s" % (r["outcome"], r["id"], r["file"], r["line"], r["op"], r["old"][:30], r["new"][:30], r["text"][:70], notes.get(r["id"], "(unclassified)")))
     open(os.path.join(OUT, "MUTATION.md"), "w").write("\n".join(L) + "\n")
     print("\n".join(L[:12]))
 
